@@ -57,12 +57,13 @@ func allProps() []Prop {
 	usc := caseJobs("VerifH_usc", map[string][]int{"arg_sc": {0, 1, 2, 3}}, []string{"arg_sc"})
 	uccs := one("VerifH_uccs")
 	initJ := one("VerifH_init")
-	rr := caseJobs("VerifH_rr", map[string][]int{"interference": {0, 1, 2}}, []string{"interference"}, "rr")
+	rr := caseJobs("VerifH_rr", map[string][]int{"interference": {0, 1, 2}}, []string{"interference"}, "rr", "atomicHavoc")
 	for i := range rr {
 		rr[i].Unroll = 5
 		rr[i].NoReplay = true
 	}
 	rrwin := caseJobs("VerifH_rrwin", map[string][]int{"k": {1, 2}}, []string{"k"}, "rr")
+	rrwin = append(rrwin, Job{Dir: gcp, Harness: gcp, Entry: "VerifH_rrwin", Flags: []string{"rr", "k=1", "atomicHavoc"}})
 	grow := caseJobs("VerifH_grow", map[string][]int{"interference": {0, 1}}, []string{"interference"})
 	cnt := one("VerifH_cnt")
 	errpick := one("VerifH_errpick")
@@ -80,7 +81,18 @@ func allProps() []Prop {
 	}
 	var meJobs []Job
 	for _, o := range []int{0, 1, 2} {
-		meJobs = append(meJobs, Job{Dir: me, Harness: "multiendpoint", Entry: "VerifH_mestep", Flags: []string{fmt.Sprintf("op=%d", o)}, TmoMs: 60000})
+		for _, rz := range []int{0, 1} {
+			for _, dz := range []int{0, 1} {
+				fl := []string{fmt.Sprintf("op=%d", o), fmt.Sprintf("rz=%d", rz), fmt.Sprintf("dz=%d", dz)}
+				if o == 1 {
+					for _, ln := range []int{0, 1, 2, 3} {
+						meJobs = append(meJobs, Job{Dir: me, Harness: "multiendpoint", Entry: "VerifH_mestep", Flags: append(append([]string{}, fl...), fmt.Sprintf("ln=%d", ln)), TmoMs: 60000})
+					}
+				} else {
+					meJobs = append(meJobs, Job{Dir: me, Harness: "multiendpoint", Entry: "VerifH_mestep", Flags: fl, TmoMs: 60000})
+				}
+			}
+		}
 	}
 	for _, n0 := range []int{0, 1, 2, 3} {
 		meJobs = append(meJobs, Job{Dir: me, Harness: "multiendpoint", Entry: "VerifH_me", Flags: []string{fmt.Sprintf("n0=%d", n0), "steps=1"}, Tier: "quick"})
@@ -141,7 +153,7 @@ func allProps() []Prop {
 		"loop unroll": "6 unless stated",
 	}
 	raceJobs := cat(
-		caseJobs("VerifH_race", map[string][]int{"pair": {0, 1, 2, 3, 4, 5}}, []string{"pair"}),
+		caseJobs("VerifH_race", map[string][]int{"pair": {0, 1, 2, 3, 4, 5, 6}}, []string{"pair"}),
 		caseJobs("VerifH_racegme", map[string][]int{"pair": {0, 1, 2, 3, 4}}, []string{"pair"}),
 		[]Job{{Dir: me, Harness: "multiendpoint", Entry: "VerifH_raceme", TmoMs: 60000}})
 	for i := range raceJobs {
